@@ -194,12 +194,13 @@ func Run(r *core.Run) {
 		"client keys always carry at least one purpose (the client's key type cannot express a purpose-less key: observed, not judged)"}
 
 	// ------------------------------------------------------------- A. request builders
-	opaque := `{"publicKey":[` + ops.PubKeyJSON("k1", keys.New("P-256", 600), `["authentication"]`) + `],"service":[{"id":"s1","type":"T","serviceEndpoint":"https://s1.example/"}],"alsoKnownAs":["https://aka.example/"],"other":{"n":1},"list":[1,2]}`
+	opaque := `{"publicKey":[` + ops.PubKeyJSON("k1", keys.New("P-256", 600), `["authentication"]`) + `],"service":[{"id":"s1","type":"T","serviceEndpoint":"https://s1.example/","priority":1,"routingKeys":["rk1","rk2"],"description":"as created"}],"alsoKnownAs":["https://aka.example/"],"other":{"n":1},"list":[1,2]}`
 	patchTexts := map[string]string{
-		"replace":              `{"action":"replace","document":{"publicKeys":[` + ops.PubKeyJSON("k2", keys.New("Ed25519", 600), `["assertionMethod"]`) + `],"services":[{"id":"s2","type":"T","serviceEndpoint":"https://s2.example/"}]}}`,
-		"add-public-keys":      `{"action":"add-public-keys","publicKeys":[` + ops.PubKeyJSON("k3", keys.New("secp256k1", 600), `["keyAgreement"]`) + `]}`,
+		"replace": `{"action":"replace","document":{"publicKeys":[` + ops.PubKeyJSON("k2", keys.New("Ed25519", 600), `["assertionMethod"]`) + `],"services":[{"id":"s2","type":"T","serviceEndpoint":"https://s2.example/"}]}}`,
+		// (the add patches also name an id that the created document has: the stored entry is replaced by the new one, whole)
+		"add-public-keys":      `{"action":"add-public-keys","publicKeys":[` + ops.PubKeyJSON("k3", keys.New("secp256k1", 600), `["keyAgreement"]`) + `,` + ops.PubKeyJSON("k1", keys.New("Ed25519", 601), ``) + `]}`,
 		"remove-public-keys":   `{"action":"remove-public-keys","ids":["k1","zz"]}`,
-		"add-services":         `{"action":"add-services","services":[{"id":"s3","type":"T","serviceEndpoint":["https://a.example/","https://b.example/"]}]}`,
+		"add-services":         `{"action":"add-services","services":[{"id":"s3","type":"T","serviceEndpoint":["https://a.example/","https://b.example/"]},{"id":"s1","type":"T2","serviceEndpoint":"https://s1-again.example/"}]}`,
 		"remove-services":      `{"action":"remove-services","ids":["s1"]}`,
 		"ietf-json-patch":      `{"action":"ietf-json-patch","patches":[{"op":"add","path":"/extra","value":{"e":true}}]}`,
 		"add-also-known-as":    `{"action":"add-also-known-as","uris":["did:example:also"]}`,
@@ -254,7 +255,10 @@ func Run(r *core.Run) {
 			ci := &client.CreateRequestInfo{OpaqueDocument: opaque, RecoveryCommitment: cm(rec), UpdateCommitment: cm(upd), MultihashCode: bc.code, AnchorOrigin: bc.origin}
 			var intent map[string]any
 			_ = json.Unmarshal([]byte(opaque), &intent)
-			if bc.action == "replace" || bc.action == "add-public-keys" || bc.action == "add-services" || bc.action == "add-also-known-as" || bc.action == "ietf-json-patch" {
+			// (under sha2-512 the add-keys / add-services lifecycles start from the opaque document instead, so that their update re-adds
+			// ids of entries that were created with more members than the update gives them)
+			fromOpaque := bc.code == 19 && (bc.action == "add-public-keys" || bc.action == "add-services")
+			if !fromOpaque && (bc.action == "replace" || bc.action == "add-public-keys" || bc.action == "add-services" || bc.action == "add-also-known-as" || bc.action == "ietf-json-patch") {
 				ci.OpaqueDocument = ""
 				ci.Patches = []patch.Patch{mkPatch(bc.action)}
 				intent, _ = rpatch.Apply(M{}, []any{ops.ParseJSON(patchTexts[bc.action])})
